@@ -102,6 +102,53 @@ pub fn enumerate<V: Variant>(r: &mut Report, ctx: &Ctx, prop: &str) {
             },
         );
     }
+    let name = format!("header-product-{}", V::NAME);
+    if ctx.want(&name) {
+        // any number of cooperating characters in the prefix + header region
+        let hdr = 2 + V::CK * 2 + 4;
+        let classes: &[u8] = if V::CK == 1 { &[b'0', b'1', b'T', b'f', b'G', 0x80] } else if quick { &[b'1', b'T', b'G'] } else { &[b'1', b'T', b'G', 0xc3] };
+        let k = classes.len() as u64;
+        let total = k.pow(hdr as u32);
+        r.section(
+            &name,
+            "every combination of a class alphabet in ALL prefix + header character positions at once (T1, checksum, length and Q-ratio characters) with a well-formed body, with and without the last body character damaged: any number of cooperating characters; every prefix mode and entry point; non-trivial = strings that are not accepted",
+            &format!("{}^{hdr} = {total} header fillings x 2 bodies", classes.len()),
+            true,
+            |s| {
+                s.acc = par_for(total, 1024, |idx, acc| {
+                    let mut st = base(2);
+                    let mut x = idx;
+                    for pos in 0..hdr {
+                        st[pos] = classes[(x % k) as usize];
+                        x /= k;
+                    }
+                    for damage in [false, true] {
+                        if damage {
+                            let l = st.len();
+                            st[l - 1] = b'x';
+                        }
+                        acc.evals += 1;
+                        acc.transitions += 7;
+                        match judge_parse::<V>(&st) {
+                            Ok(fp) => {
+                                acc.outcomes.insert(fp);
+                                if damage || st[..hdr].iter().any(|c| !c.is_ascii_hexdigit()) {
+                                    acc.nontrivial += 1;
+                                }
+                            }
+                            Err(e) => {
+                                acc.fail(idx * 2 + damage as u64, &name, e, json!({"kind": "parse", "variant": V::NAME, "string": hex(&st), "property": prop}));
+                                return;
+                            }
+                        }
+                    }
+                    if idx % 100_003 == 0 {
+                        acc.sample(idx, || json!({"variant": V::NAME, "header_filling_index": idx, "string_hex": hex(&st)}));
+                    }
+                });
+            },
+        );
+    }
     let name = format!("lengths-{}", V::NAME);
     if ctx.want(&name) {
         r.section(
